@@ -1,1 +1,196 @@
-(* C10 stub: to be written *)
+(* C10 proofs: nesting / grouping is immaterial; '@' equals sequential application (states). *)
+From Coq Require Import List ZArith QArith Lia Bool Arith Ring.
+From EPG Require Import Scalar State Ops ListLemmas Views Diff Combine.
+Import ListNotations.
+
+Section CombineProofs.
+Variable S : ScalOps.
+Hypothesis L : ScalLaws S.
+Add Ring Kr : (k_ring S L).
+Notation triple := (triple S).
+Notation mat3 := (mat3 S).
+Notation sm := (sm S).
+Notation get := (get S).
+Notation gete := (gete S).
+Notation seqtree := (seqtree S).
+
+(* ---- (i) nesting and grouping ---- *)
+Lemma run_app (a b : list (op S)) s : run (a ++ b) s = run b (run a s).
+Proof. unfold run. apply fold_left_app. Qed.
+
+(* induction principle for the nested type *)
+Section TreeInd.
+Variable P : seqtree -> Prop.
+Hypothesis HL : forall o d n sh, P (Leaf o d n sh).
+Hypothesis HN : forall l, List.Forall P l -> P (Node l).
+Hypothesis HM : forall l, List.Forall P l -> P (Multi l).
+Fixpoint seqtree_ind' (t : seqtree) : P t :=
+  match t with
+  | Leaf o d n sh => HL o d n sh
+  | Node l => HN l ((fix go (l : list seqtree) : List.Forall P l :=
+                      match l with [] => Forall_nil _ | x :: r => Forall_cons _ (seqtree_ind' x) (go r) end) l)
+  | Multi l => HM l ((fix go (l : list seqtree) : List.Forall P l :=
+                      match l with [] => Forall_nil _ | x :: r => Forall_cons _ (seqtree_ind' x) (go r) end) l)
+  end.
+End TreeInd.
+
+Lemma run_flat_map (l : list seqtree) s :
+  List.Forall (fun t => forall s, run_tree t s = run (flatten t) s) l ->
+  fold_left (fun s t' => run_tree t' s) l s = run (flat_map flatten l) s.
+Proof.
+  intros H. revert s. induction H as [|t l Ht Hl IH]; intros s; simpl; auto.
+  rewrite run_app, <- Ht. apply IH.
+Qed.
+
+(* any nesting of lists and any '*' grouping gives the same final state as the flat sequence *)
+Theorem simulate_nested_eq_flat (t : seqtree) s : run_tree t s = run (flatten t) s.
+Proof.
+  revert s. induction t using seqtree_ind'; intros s; simpl.
+  - reflexivity.
+  - now apply run_flat_map.
+  - now apply run_flat_map.
+Qed.
+
+(* two structures with the same leaves in the same order are interchangeable *)
+Corollary regrouping_immaterial (t t' : seqtree) s : flatten t = flatten t' -> run_tree t s = run_tree t' s.
+Proof. intros H. now rewrite !simulate_nested_eq_flat, H. Qed.
+
+(* a multi-operator reports the summed duration and the summed shift count of its leaves *)
+Lemma fold_add_Q (l : list seqtree) (f : seqtree -> Q) a :
+  (fold_left (fun a t' => a + f t') l a == a + fold_left (fun a t' => a + f t') l 0)%Q.
+Proof.
+  revert a. induction l as [|t l IH]; intros a; simpl.
+  - ring.
+  - rewrite IH, (IH (0 + f t)%Q). ring.
+Qed.
+Definition sumQ (l : list (Q * nat)) : Q := fold_left (fun a x => (a + fst x)%Q) l 0%Q.
+Definition sumN (l : list (Q * nat)) : nat := fold_left (fun a x => (a + snd x)%nat) l 0%nat.
+
+Lemma sumQ_app a b : (sumQ (a ++ b) == sumQ a + sumQ b)%Q.
+Proof.
+  unfold sumQ. rewrite fold_left_app. generalize (fold_left (fun a x => (a + fst x)%Q) a 0%Q) as x.
+  induction b as [|y b IH]; intros x; simpl; [ring|].
+  rewrite IH, (IH (0 + fst y)%Q). ring.
+Qed.
+Lemma sumN_app a b : sumN (a ++ b) = (sumN a + sumN b)%nat.
+Proof.
+  unfold sumN. rewrite fold_left_app. generalize (fold_left (fun a x => (a + snd x)%nat) a 0%nat) as x.
+  induction b as [|y b IH]; intros x; simpl; [lia|].
+  rewrite IH, (IH (snd y)). lia.
+Qed.
+
+Theorem multi_duration (t : seqtree) : (tree_duration S t == sumQ (leaves S t))%Q.
+Proof.
+  induction t using seqtree_ind'; simpl.
+  - unfold sumQ; simpl. ring.
+  - induction H as [|x l Hx Hl IH]; simpl; [reflexivity|].
+    rewrite fold_add_Q, sumQ_app, <- IH, Hx. ring.
+  - induction H as [|x l Hx Hl IH]; simpl; [reflexivity|].
+    rewrite fold_add_Q, sumQ_app, <- IH, Hx. ring.
+Qed.
+
+Lemma fold_add_N (l : list seqtree) (f : seqtree -> nat) a :
+  fold_left (fun a t' => a + f t')%nat l a = (a + fold_left (fun a t' => a + f t')%nat l 0)%nat.
+Proof.
+  revert a. induction l as [|t l IH]; intros a; simpl; [lia|].
+  rewrite IH, (IH (f t)). lia.
+Qed.
+
+Theorem multi_nshift (t : seqtree) : tree_nshift S t = sumN (leaves S t).
+Proof.
+  induction t using seqtree_ind'; simpl.
+  - reflexivity.
+  - induction H as [|x l Hx Hl IH]; simpl; [reflexivity|].
+    rewrite fold_add_N, sumN_app, <- IH, Hx. lia.
+  - induction H as [|x l Hx Hl IH]; simpl; [reflexivity|].
+    rewrite fold_add_N, sumN_app, <- IH, Hx. lia.
+Qed.
+
+(* ---- (ii) '@' on state matrices ---- *)
+Lemma shaped_get_ext (a b : sm) n : shaped S a n -> shaped S b n ->
+  (forall k, get a k = get b k) -> (forall k, gete a k = gete b k) -> a = b.
+Proof.
+  intros [A1 A2] [B1 B2] Hg He.
+  assert (E : forall (x y : list triple), length x = (2 * n + 1)%nat -> length y = (2 * n + 1)%nat ->
+                (forall k, getZ t0 x k = getZ t0 y k) -> x = y).
+  { intros x y Hx Hy H. apply (nth_ext x y t0 t0); [congruence|].
+    intros i Hi. specialize (H (Z.of_nat i - Z.of_nat n)%Z).
+    rewrite (getZ_odd t0 x n _ Hx), (getZ_odd t0 y n _ Hy) in H.
+    replace (Z.of_nat i - Z.of_nat n + Z.of_nat n)%Z with (Z.of_nat i) in H by lia.
+    now rewrite !nthZ_nat in H. }
+  destruct a as [sa ea], b as [sb eb]; simpl in *. f_equal; apply E; auto.
+Qed.
+
+Lemma mv_mmul (m2 m1 : mat3) (x : triple) : mv (mmul m2 m1) x = mv m2 (mv m1 x).
+Proof. apply (triple_ext S); unfold mv, mmul, rowmul, dot, col0, col1, col2; simpl; ring. Qed.
+Lemma mv_madd (a b : mat3) (x : triple) : mv (madd a b) x = tadd (mv a x) (mv b x).
+Proof. apply (triple_ext S); unfold mv, madd, dot, tadd; simpl; ring. Qed.
+Lemma mv_tadd (m : mat3) (x y : triple) : mv m (tadd x y) = tadd (mv m x) (mv m y).
+Proof. apply (triple_ext S); unfold mv, dot, tadd; simpl; ring. Qed.
+Lemma sv_sv (a2 a1 x : triple) : sv (sv a2 a1) x = sv a2 (sv a1 x).
+Proof. apply (triple_ext S); unfold sv; simpl; ring. Qed.
+Lemma sv_tadd (a x y : triple) : sv a (tadd x y) = tadd (sv a x) (sv a y).
+Proof. apply (triple_ext S); unfold sv, tadd; simpl; ring. Qed.
+Lemma sv_mdiag' (a x : triple) : sv a x = mv (mdiag a) x.
+Proof. apply (triple_ext S); unfold mv, dot, mdiag, sv; simpl; ring. Qed.
+Lemma tadd_assoc (x y z : triple) : tadd (tadd x y) z = tadd x (tadd y z).
+Proof. apply (triple_ext S); unfold tadd; simpl; ring. Qed.
+Lemma tadd_t0r (x : triple) : tadd x t0 = x.
+Proof. apply (triple_ext S); unfold tadd; simpl; ring. Qed.
+
+(* uniform view: every combinable operator acts as  x |-> M x + M0 e  on each phase state *)
+Definition lmatC (l : lin S) : mat3 :=
+  match l with LScalar a _ => mdiag a | LMatrix m _ => m | LShift _ _ => mid end.
+Definition lmat0C (l : lin S) : option mat3 :=
+  match l with
+  | LScalar _ a0 => match a0 with Some b => Some (mdiag b) | None => None end
+  | LMatrix _ m0 => m0 | LShift _ _ => None end.
+
+Lemma get_lin_view l s n k : (match l with LShift _ _ => False | _ => True end) -> shaped S s n ->
+  get (apply_lin l s) k = tadd (mv (lmatC l) (get s k)) (opt_mv S (lmat0C l) (gete s k)).
+Proof.
+  intros Hl Hs. destruct l as [a a0|m m0|d nm]; [| |contradiction]; unfold apply_lin; simpl.
+  - rewrite (get_scalar S L a a0 s n k Hs). destruct a0; simpl; now rewrite !sv_mdiag'.
+  - apply (get_matrix S L m m0 s n k Hs).
+Qed.
+
+Theorem combine_apply_states l1 l2 lc s n : combine_lin l1 l2 = Some lc -> shaped S s n ->
+  apply_lin lc s = apply_lin l2 (apply_lin l1 s).
+Proof.
+  intros Hc Hs.
+  assert (N1 : match l1 with LShift _ _ => False | _ => True end)
+    by (destruct l1; auto; destruct l2; simpl in Hc; discriminate).
+  assert (N2 : match l2 with LShift _ _ => False | _ => True end)
+    by (destruct l2; auto; destruct l1 as [? ?|? ?|? ?]; simpl in Hc; try discriminate).
+  assert (Nc : match lc with LShift _ _ => False | _ => True end).
+  { destruct l1 as [a1 a01|m1 m01|]; destruct l2 as [a2 a02|m2 m02|]; simpl in Hc; inversion Hc; auto. }
+  assert (Hs1 : shaped S (apply_lin l1 s) n).
+  { destruct l1; [now apply scalar_shaped|now apply matrix_shaped|contradiction]. }
+  assert (Hs2 : shaped S (apply_lin l2 (apply_lin l1 s)) n).
+  { destruct l2; [now apply scalar_shaped|now apply matrix_shaped|contradiction]. }
+  assert (Hsc : shaped S (apply_lin lc s) n).
+  { destruct lc; [now apply scalar_shaped|now apply matrix_shaped|contradiction]. }
+  assert (E1 : forall k, gete (apply_lin l1 s) k = gete s k)
+    by (intros k; destruct l1; [apply gete_scalar|apply gete_matrix|contradiction]).
+  apply (shaped_get_ext _ _ n Hsc Hs2).
+  - intros k.
+    rewrite (get_lin_view lc s n k Nc Hs), (get_lin_view l2 _ n k N2 Hs1), (get_lin_view l1 s n k N1 Hs), E1.
+    destruct l1 as [a1 a01|m1 m01|]; destruct l2 as [a2 a02|m2 m02|]; simpl in Hc; inversion Hc; subst; clear Hc;
+      cbn [lmatC lmat0C fst snd matrix_combine scalar_combine as_mat omat];
+      try (destruct a01 as [b1|]); try (destruct m01 as [b1|]); try (destruct a02 as [b2|]); try (destruct m02 as [b2|]);
+      cbn [opt_mv omat]; rewrite ?mv_mmul, ?mv_madd, ?mv_tadd, ?(mv_t0 S L), ?tadd_t0r, ?tadd_assoc;
+      rewrite <- ?sv_mdiag', ?sv_sv, ?sv_tadd; rewrite ?sv_mdiag', ?mv_mmul, ?mv_madd, ?mv_tadd;
+      try reflexivity; apply (triple_ext S); unfold mv, dot, mdiag, sv, tadd, mmul, rowmul, col0, col1, col2; simpl; ring.
+  - intros k.
+    assert (E2 : forall x, gete (apply_lin l2 x) k = gete x k)
+      by (intros x; destruct l2; [apply gete_scalar|apply gete_matrix|contradiction]).
+    assert (Ec : gete (apply_lin lc s) k = gete s k)
+      by (destruct lc; [apply gete_scalar|apply gete_matrix|contradiction]).
+    now rewrite Ec, E2, E1.
+Qed.
+
+(* chains: any association of '@' gives an operator with the same effect as the sequence *)
+Fixpoint apply_chain (ls : list (lin S)) (s : sm) : sm :=
+  match ls with [] => s | l :: r => apply_chain r (apply_lin l s) end.
+
+End CombineProofs.
